@@ -134,7 +134,7 @@ class FloorTracer:
     def proj_dev(self, d, o):
         k = d['kind']
         out = {'kind': k, 'blocked': bool(o.block_input), 'value': num(o.value), 'nvh': len(o.value_history)}
-        if k == 'gate' or k == 'gpath':
+        if k in ('gate', 'gpath', 'junction'):
             return out
         out.update(inp=self.pid(o._part), out=self.pid(o._output), wds=bool(o._waiting_for_downstream_space),
                    wsince=tk(o.waiting_for_part_start_time), off=tk(o._next_cycle_time_offset, 'offset'))
